@@ -275,7 +275,13 @@ func runC01(rc *sk.RunCtx) {
 			}
 		}
 		l.fp, _ = l.crt.Fingerprint()
-		l.fp2, _ = cert.CalculateAlternateFingerprint(l.crt)
+		// the twin's fingerprint is taken from the twin certificate itself (the same certificate carrying the other
+		// of the two equivalent P-256 signatures), not from the implementation's alternate-fingerprint helper
+		if curve == cert.Curve_P256 {
+			if tw, ok := resign(l.crt, pub, curve, func(sig []byte) []byte { t, _ := p256.Swap(sig); return t }); ok {
+				l.fp2, _ = tw.Fingerprint()
+			}
+		}
 		leaves = append(leaves, l)
 	}
 
